@@ -78,13 +78,17 @@ try:
                 rc, out = run(cmd)
             res["suite"] = out.strip()[-120:]
         fired = {}
-        props = [f"C{i:02d}" for i in range(1, 21)]
-        for p_ in props:
-            root = os.path.dirname(os.path.dirname(os.path.abspath(__file__)))  # the checkout this script belongs to
-            rc, out = run([os.path.join(root, "check"), p_, "--repo", wt], cwd=root)
-            rules = sorted({l.split("rule ")[1].split(":")[0] for l in out.splitlines() if l.strip().startswith("rule ")})
-            if rc != 0:
-                fired[p_] = {"rc": rc, "rules": rules, "errors": [l[:160] for l in out.splitlines() if "ANALYSIS-ERROR" in l][:3]}
+        root = os.path.dirname(os.path.dirname(os.path.abspath(__file__)))  # the checkout this script belongs to
+        # all 20 quick checks with one load of the tree (tools/check_all.py: the same rules, a forked child per property)
+        rc, out = run(["/venv/bin/python", "-B", os.path.join(root, "tools", "check_all.py"), "--repo", wt], cwd=root)
+        try:
+            allres = json.loads(out.strip().splitlines()[-1])
+        except Exception:  # noqa: BLE001
+            allres = {}
+            res["check_all_error"] = out[-300:]
+        for p_, v in sorted(allres.items()):
+            if v["exit"] != 0:
+                fired[p_] = {"rc": v["exit"], "rules": v["rules"], "errors": [l[:160] for l in v["out"].splitlines() if "ANALYSIS-ERROR" in l][:3]}
         res["fired"] = fired
         res["detected_by_own_property"] = fired.get(prop, {}).get("rc") == 1
         res["detected_by_any"] = any(v.get("rc") == 1 for v in fired.values())
